@@ -130,6 +130,7 @@ type RunObs struct {
 type StopObs struct {
 	N           int    `json:"n"`
 	At          int    `json:"at"`
+	DuringShut  bool   `json:"duringShut"` // delivered while a Shutdown of the runner was in progress
 	BegunBefore []bool `json:"begunBefore"`
 	OpenBefore  []bool `json:"openBefore"`
 }
@@ -454,6 +455,7 @@ func (w *world) evRunnerCancel(f *fakeRunner, first bool) {
 	s.N++
 	if s.N == 1 {
 		s.At = w.nowMs()
+		s.DuringShut = w.st.Shut == "begun"
 		for i, r := range w.st.Runs[ji.idx-1] {
 			s.BegunBefore[i] = r.Begun > 0
 			s.OpenBefore[i] = r.Open
